@@ -379,6 +379,47 @@ func checkC06(e *env) {
 func above32(e *env, f7 bool) {
 	r := e.res
 	wm := newReal("WebMercatorQuad", 24, false)
+	// the index itself: two points whose deepest pixel addresses are 2^16+k and 2^32+k in the same row. Either the second insertion is
+	// reported (panic "cannot make Z", error) or the index holds two distinct hot pixels with exactly these addresses
+	for id := 21; id <= 24; id++ {
+		for _, k := range []float64{5, 77, 4099} {
+			bl, _, _ := wm.tms.MatrixBoundingBox(0)
+			pix := wm.tms.TileMatrices[id].CellSize / 16
+			at := func(ax, ay float64) geom.Point { return geom.Point{bl[0] + (ax+0.5)*pix, bl[1] + (ay+0.5)*pix} }
+			op := fmt.Sprintf("index of WebMercatorQuad id %d: insert the points of pixels (2^16+%v, 1000) and (2^32+%v, 1000)", id, k, k)
+			r.count("snap-above-32", op, true)
+			verdict := func() (v string) {
+				defer func() {
+					if rec := recover(); rec != nil {
+						v = "reported: panic " + panicClass(fmt.Sprint(rec))
+					}
+				}()
+				ix, err := pointindex.FromTileMatrixSet(wm.tms, id)
+				if err != nil {
+					return "reported: " + err.Error()
+				}
+				if err := ix.InsertPoint(at(65536+k, 1000)); err != nil {
+					return "reported: " + err.Error()
+				}
+				if err := ix.InsertPoint(at(4294967296+k, 1000)); err != nil {
+					return "reported: " + err.Error()
+				}
+				hot := ix.XHot(uint(id) + 12)
+				have := map[[2]uint]bool{}
+				for _, h := range hot {
+					have[h] = true
+				}
+				if len(hot) == 2 && have[[2]uint{uint(65536 + k), 1000}] && have[[2]uint{uint(4294967296 + k), 1000}] {
+					return "two hot pixels"
+				}
+				return fmt.Sprintf("hot pixels of the deepest level: %v", hot)
+			}()
+			if !strings.HasPrefix(verdict, "reported") && verdict != "two hot pixels" {
+				r.violation(Violation{Oracle: "address-beyond-32-bits-reported-not-wrapped", Op: op, Impl: verdict,
+					Detail: "two different pixels were inserted, neither insertion was refused, and the index does not hold these two pixels: their keys were made from addresses that do not fit 32 bits"})
+			}
+		}
+	}
 	for i := 0; i < 12; i++ {
 		id := 21 + i%4
 		c := &snapCase{gs: wm, tmids: []int{id}, tag: "above-level-32"}
@@ -387,9 +428,19 @@ func above32(e *env, f7 bool) {
 			x, y = float64(1+i)*1.3e6, float64(12-i)*1.1e6
 		}
 		tri := geom.Polygon{{{x, y}, {x + 5, y}, {x + 3, y + 4}}}
+		op := fmt.Sprintf("WebMercatorQuad id %d triangle at (%v,%v)", id, x, y)
+		if i >= 9 {
+			// two vertices whose pixel addresses differ in bit 32 and bit 16 only (2^32+k and 2^16+k in the same row): keys made from
+			// addresses cut to 32 bits, or spread without the check, would take them for one pixel
+			bl, _, _ := wm.tms.MatrixBoundingBox(0)
+			pix := wm.tms.TileMatrices[id].CellSize / 16
+			at := func(ax, ay float64) [2]float64 { return [2]float64{bl[0] + (ax+0.5)*pix, bl[1] + (ay+0.5)*pix} }
+			k := float64(5 + i)
+			tri = geom.Polygon{{at(65536+k, 1000), at(4294967296+k, 1000), at(2147483648, 1048576)}}
+			op = fmt.Sprintf("WebMercatorQuad id %d triangle with pixel addresses (2^16+%v,1000) (2^32+%v,1000) (2^31,2^20)", id, k, k)
+		}
 		c.setPoly(tri)
 		sr := c.runImpl()
-		op := fmt.Sprintf("WebMercatorQuad id %d triangle at (%v,%v)", id, x, y)
 		r.count("snap-above-32", op, true)
 		switch {
 		case sr.panicMsg != "" && panicClass(sr.panicMsg) == "cannot make Z":
@@ -417,6 +468,24 @@ func above32(e *env, f7 bool) {
 							return
 						}
 					}
+				}
+			}
+			// … and every vertex of the (large) triangle is still there
+			for _, u := range tri[0] {
+				found := false
+				for _, pg := range res[id] {
+					for _, rg := range pg {
+						for _, v := range rg {
+							if math.Abs(v[0]-u[0]) <= pix/2*1.001 && math.Abs(v[1]-u[1]) <= pix/2*1.001 {
+								found = true
+							}
+						}
+					}
+				}
+				if !found && i >= 9 {
+					r.violation(Violation{Oracle: "address-beyond-32-bits-reported-not-wrapped", Op: op, Impl: fmt.Sprint(res[id]),
+						Detail: fmt.Sprintf("no returned vertex within half a pixel of the input vertex (%v, %v): two pixels whose addresses differ beyond bit 31 were taken for one", u[0], u[1])})
+					return
 				}
 			}
 		}
